@@ -239,6 +239,50 @@ theorem C09_probe_shape (svc : Svc) :
   open Zc.GenFacts.Register in
   simp [probePkt, Svc.ptr, mkRec, unique_inUnique, class_inUnique, typePtr_eq]
 
+/-! ### the conflicting name as an owner name (known finding D15, `C09:server-none-keeps-conflicting-host-name`) -/
+
+/-- every record of an announcement is owned by the service type (PTR), the instance name (SRV, TXT, NSEC) or the host name (A, AAAA) -/
+theorem C09_announce_owners (svc : Svc) (r : Rec) (h : r ∈ (broadcastPkt svc none true).answers) :
+    r.name = svc.type ∨ r.name = svc.name ∨ r.name = svc.server := by
+  open Zc.GenFacts.Register in
+  have h' : r = svc.ptr none ∨ r = svc.srv none ∨ r = svc.txt none ∨ r ∈ svc.addrs none ∨ r = svc.nsec none := by
+    simp only [broadcastPkt, broadcastAnswers, Svc.addrNsec, add_addresses_eq, if_true, List.cons_append, List.nil_append,
+      List.mem_cons, List.mem_append] at h
+    rcases h with h | h | h | h | h
+    · exact Or.inl h
+    · exact Or.inr (Or.inl h)
+    · exact Or.inr (Or.inr (Or.inl h))
+    · exact Or.inr (Or.inr (Or.inr (Or.inl h)))
+    · split at h
+      · simp at h
+      · simp only [List.mem_singleton] at h
+        exact Or.inr (Or.inr (Or.inr (Or.inr h)))
+  simp only [Svc.addrs, List.mem_append, List.mem_map] at h'
+  rcases h' with rfl | rfl | rfl | (⟨_, _, rfl⟩ | ⟨_, _, rfl⟩) | rfl
+  all_goals (simp [Svc.ptr, Svc.srv, Svc.txt, Svc.nsec, mkRec])
+
+/-- full strength: once the registration has moved away from a conflicting name `old` (the service is announced under another
+name), no announced record is owned by `old` -/
+def C09_conflicting_name_not_owner : Prop :=
+  ∀ (svc : Svc) (old : String), svc.name ≠ old → svc.type ≠ old → ∀ r ∈ (broadcastPkt svc none true).answers, r.name ≠ old
+
+/-- **false of the code** (known finding): in the legacy `server=None` mode `set_server_if_missing` has copied the first
+instance name into `server` before the check, a rename does not move it, and the address records keep the conflicting name -/
+theorem C09_conflicting_name_not_owner_refuted : ¬ C09_conflicting_name_not_owner := by
+  intro h
+  have := h { type := "_http._tcp.local.", name := "svc-2._http._tcp.local.", server := "svc._http._tcp.local.", port := 80, weight := 0,
+              priority := 0, text := [], v4 := [[10, 0, 0, 1]], v6 := [], hostTtl := 120, otherTtl := 4500 }
+    "svc._http._tcp.local." (by decide) (by decide)
+    (mkRec "svc._http._tcp.local." Gen.typeA Gen.classInUnique 120 (.addr [10, 0, 0, 1] none)) (by decide)
+  exact this (by decide)
+
+/-- what does hold: with a host name of its own (`server` given, or anything but the conflicting name) no record of the
+announcement is owned by the conflicting name -/
+theorem C09_conflicting_name_not_owner_partial (svc : Svc) (old : String) (hn : svc.name ≠ old) (ht : svc.type ≠ old)
+    (hs : svc.server ≠ old) : ∀ r ∈ (broadcastPkt svc none true).answers, r.name ≠ old := by
+  intro r hr
+  rcases C09_announce_owners svc r hr with h | h | h <;> rw [h] <;> assumption
+
 /-! ### one instance never holds the same name twice -/
 
 /-- the registry's name table never lists a key twice, whatever sequence of add / remove / update is applied;
